@@ -1,5 +1,6 @@
 import Sck.Proofs.VotingRank
 import Sck.Proofs.VotingRand
+import Sck.Proofs.IndexShift
 
 /-! # C13 — tie-breaking, index shift, randomized scoring rules
 Property theorems only (helper lemmas live in `Sck/Proofs/Voting*.lean`).
@@ -89,6 +90,71 @@ theorem C13_scfQ_index_shift (tb : TieBreaker) (s : List Rat) :
 theorem C13_swfI_index_shift (s : List Int) :
     swfI 1 s = (swfI 0 s).map (fun e => (e.1 + 1, e.2)) := swfI_index_shift s
 
+/-! ## one-indexed versus zero-indexed output — the non-voting rule families
+
+The allocation and matching classes add `self.index_fixer` to the labels they REPORT only (file
+`Sck/Model/IndexShift.lean`):
+* `rsdPublic fixer P order` — `RandomSerialDictatorship.scf` (`allocation[agent] = int(item) + index_fixer`,
+  an unallocated agent stays NaN = `none`);
+* `allocPublic fixer σ` — an allocation agent ↦ item: the eating lottery
+  (`np.argmax(chosen_permutation, axis=1) + index_fixer`, `σ` = a term of `bvnFull`), maximum-weight matching
+  (`col_ind + index_fixer`), λ-TSF, Match-TwoQueries;
+* `pairsPublic fixer M` — a matching as pairs `(i + index_fixer, j + index_fixer)`: Gale–Shapley
+  (`galeShapley ro fixer I`, by definition `pairsPublic fixer` of the 0-based matching), Irving, two-sided λ-TSF.
+`fixer = 0` is the core (0-based) outcome; `fixer = 1` moves every reported item / agent by exactly one, keeps
+length, order and the unallocated entries, and loses nothing (subtracting recovers the 0-based output). -/
+
+theorem C13_rsdPublic_zero (P : List (List (Option Nat))) (order : List Nat) :
+    rsdPublic 0 P order = rsd P order := rsdPublic_zero P order
+
+theorem C13_rsdPublic_index_shift (P : List (List (Option Nat))) (order : List Nat) :
+    rsdPublic 1 P order = (rsdPublic 0 P order).map (Option.map (· + 1)) := rsdPublic_index_shift P order
+
+theorem C13_rsdPublic_index_shift_injective (P : List (List (Option Nat))) (order : List Nat) :
+    (rsdPublic 1 P order).map (Option.map (· - 1)) = rsdPublic 0 P order :=
+  rsdPublic_index_shift_injective P order
+
+/-- entrywise: agent `a`'s reported item is its item plus `fixer`; "unallocated" is not shifted -/
+theorem C13_rsdPublic_entry (fixer : Nat) (P : List (List (Option Nat))) (order : List Nat) (a : Nat) :
+    (rsdPublic fixer P order)[a]? = ((rsd P order)[a]?).map (Option.map (· + fixer)) :=
+  rsdPublic_getElem? fixer P order a
+
+theorem C13_allocPublic_zero (sigma : List Nat) : allocPublic 0 sigma = sigma := allocPublic_zero sigma
+
+theorem C13_allocPublic_index_shift (sigma : List Nat) :
+    allocPublic 1 sigma = (allocPublic 0 sigma).map (· + 1) := allocPublic_index_shift sigma
+
+theorem C13_allocPublic_index_shift_injective (sigma : List Nat) :
+    (allocPublic 1 sigma).map (· - 1) = allocPublic 0 sigma := allocPublic_index_shift_injective sigma
+
+theorem C13_allocPublic_entry (fixer : Nat) (sigma : List Nat) (i : Nat) :
+    (allocPublic fixer sigma)[i]? = (sigma[i]?).map (· + fixer) := allocPublic_getElem? fixer sigma i
+
+theorem C13_pairsPublic_zero (M : List (Nat × Nat)) : pairsPublic 0 M = M := pairsPublic_zero M
+
+theorem C13_pairsPublic_index_shift (M : List (Nat × Nat)) :
+    pairsPublic 1 M = (pairsPublic 0 M).map (fun e => (e.1 + 1, e.2 + 1)) := pairsPublic_index_shift M
+
+theorem C13_pairsPublic_index_shift_injective (M : List (Nat × Nat)) :
+    (pairsPublic 1 M).map (fun e => (e.1 - 1, e.2 - 1)) = pairsPublic 0 M :=
+  pairsPublic_index_shift_injective M
+
+theorem C13_pairsPublic_mem (fixer : Nat) (M : List (Nat × Nat)) (p : Nat × Nat) :
+    p ∈ pairsPublic fixer M ↔ ∃ e ∈ M, p = (e.1 + fixer, e.2 + fixer) := mem_pairsPublic fixer M p
+
+/-- Gale–Shapley reports through `pairsPublic` (definitionally), so the same holds for it: same
+success/failure, every resident and hospital label moves by one -/
+theorem C13_galeShapley_public (ro : Bool) (fixer : Nat) (I : HR) :
+    galeShapley ro fixer I = (if ro then gsRes I else gsHosp I).map (pairsPublic fixer) := rfl
+
+theorem C13_galeShapley_index_shift (ro : Bool) (I : HR) :
+    galeShapley ro 1 I = (galeShapley ro 0 I).map (fun mu => mu.map (fun e => (e.1 + 1, e.2 + 1))) :=
+  galeShapley_index_shift ro I
+
+theorem C13_galeShapley_index_shift_injective (ro : Bool) (I : HR) :
+    (galeShapley ro 1 I).map (fun mu => mu.map (fun e => (e.1 - 1, e.2 - 1))) = galeShapley ro 0 I :=
+  galeShapley_index_shift_injective ro I
+
 /-! ## randomized scoring rules -/
 
 /-- the probability vector is the score vector divided by its total and sums to one -/
@@ -122,3 +188,9 @@ example : swfI 0 [2, 5, 4] = [(1, 5), (2, 4), (0, 2)] := by decide
 example : randProbs [2, 1, 0] = some [2 / 3, 1 / 3, 0] := by decide +kernel
 example : ∀ x ∈ ([2, 1, 0] : List Rat), 0 ≤ x := by decide +kernel
 example : randProbs [0, 0, 0] = none := by decide +kernel
+example : rsdPublic 1 [[some 1, some 2, some 3], [some 1, none, some 2], [some 2, some 1, none]] [1, 0, 2] =
+    [some 2, some 1, none] ∧
+    rsdPublic 0 [[some 1, some 2, some 3], [some 1, none, some 2], [some 2, some 1, none]] [1, 0, 2] =
+    [some 1, some 0, none] := by decide
+example : allocPublic 1 [0, 2, 1] = [1, 3, 2] ∧ allocPublic 0 [0, 2, 1] = [0, 2, 1] := by decide
+example : pairsPublic 1 [(0, 1), (2, 0)] = [(1, 2), (3, 1)] := by decide
